@@ -27,7 +27,8 @@ from gotranx.schemes import Scheme  # noqa: E402
 
 structlog.configure(wrapper_class=structlog.make_filtering_bound_logger(logging.ERROR))
 
-REPO_SRC = os.path.realpath("/repo/src")
+REPO = os.environ.get("VERIF_REPO") or "/repo"
+REPO_SRC = os.path.realpath(os.path.join(REPO, "src"))
 assert os.path.realpath(gotranx.__file__).startswith(REPO_SRC), gotranx.__file__
 
 ALL_SCHEMES = ["explicit_euler", "generalized_rush_larsen", "hybrid_rush_larsen"]
